@@ -176,7 +176,10 @@ func runSCIONServer(ctx context.Context, log *slog.Logger, mtrcs *scionServerMet
 			scionLayer.RawDstAddr, scionLayer.RawSrcAddr = scionLayer.RawSrcAddr, scionLayer.RawDstAddr
 			scionLayer.Path, err = scionLayer.Path.Reverse()
 			if err != nil {
-				panic(err)
+				// not every decodable path can be reversed (unassigned path types,
+				// SCION paths without segments, incomplete one-hop paths)
+				log.LogAttrs(ctx, slog.LevelInfo, "failed to reverse path", slog.Any("error", err))
+				continue
 			}
 			scionLayer.PathType = scionLayer.Path.Type()
 			scionLayer.NextHdr = slayers.L4SCMP
@@ -456,7 +459,10 @@ func runSCIONServer(ctx context.Context, log *slog.Logger, mtrcs *scionServerMet
 			scionLayer.RawDstAddr, scionLayer.RawSrcAddr = scionLayer.RawSrcAddr, scionLayer.RawDstAddr
 			scionLayer.Path, err = scionLayer.Path.Reverse()
 			if err != nil {
-				panic(err)
+				// not every decodable path can be reversed (unassigned path types,
+				// SCION paths without segments, incomplete one-hop paths)
+				log.LogAttrs(ctx, slog.LevelInfo, "failed to reverse path", slog.Any("error", err))
+				continue
 			}
 			scionLayer.PathType = scionLayer.Path.Type()
 			scionLayer.NextHdr = slayers.L4UDP
